@@ -356,3 +356,145 @@ theorem appendEntryNode_attached_eq {f : Forest} {e nm : Nat} {N A S : List HTre
 
 end Fmap
 end XotModel
+
+namespace XotModel
+namespace Fmap
+open HTree
+open Forest (MapKind entryKey mapChildren)
+
+/-- `append_*_node` of a parentless entry node whose key is absent, with the new state explicit. -/
+theorem appendEntryNode_absent {f : Forest} {e nm : Nat} {N A S : List HTree} (h : MInv f e nm N A S)
+    (k : MapKind) (nd : Nat) (v : Value) (hm : k.matches v = true)
+    (hroot : HTree.node nd v [] ∈ f.roots) (habs : f.mapGetNode k e (entryKey v) = none) :
+    let s' := Sect.sec k N A ++ [.node nd v []]
+    let f' : Forest := { f with roots := withKids (rootsWithout f nd) e (preK k N ++ s' ++ postK k A S) }
+    f.appendEntryNode k e nd = (f', .ok, nd) ∧
+    MInv f' e nm (setSecN k N s') (setSecA k A s') S ∧
+    s'.map entryPair = omInsert ((Sect.sec k N A).map entryPair) (entryKey v) (payloadOf v) ∧
+    s'.map (·.handle) = (Sect.sec k N A).map (·.handle) ++ [nd] := by
+  intro s' f'
+  have hne := leafRoot_ne_elem h k nd v hm hroot
+  have hval : f.value? nd = some v := by
+    simp [Forest.value?, leafRoot_get f h.loc.nodup nd v hroot, HTree.value]
+  have habs' := find?_key_none _ _ (by rw [← h.getNode k]; exact habs)
+  obtain ⟨hplace, hinv, hmap, hnodes⟩ := place_absent h k nd v hm hroot hne habs'
+  refine ⟨?_, hinv, hmap, hnodes⟩
+  unfold Forest.appendEntryNode
+  rw [h.isElement]
+  simp only [Bool.not_true, Bool.false_eq_true, if_false, hval, hm]
+  unfold Forest.mapInsertNode
+  simp only [hval, hm, Bool.not_true, Bool.false_eq_true, if_false, habs]
+  rw [hplace]
+
+/-- Moving an entry node `n` of view `k` of `e2` to another element `e` whose view lacks the key:
+    `e` gains the entry at the end (carried by the same node), `e2` loses it, nothing else
+    changes in the two elements' views, the invariant is kept. -/
+theorem move_node (f : Forest) (hi : f.Inv) (k : MapKind) (e e2 hd : Nat)
+    (he : f.isElement e = true) (he2 : f.isElement e2 = true) (hne : e ≠ e2)
+    (hm : hd ∈ absNodes k f e2) :
+    ∃ n, f.mapGetNode k e2 (keyOf n) = some n ∧ n.handle = hd ∧
+      (f.mapGetNode k e (keyOf n) = none →
+        (f.appendEntryNode k e hd).2 = (.ok, hd) ∧
+        abs k (f.appendEntryNode k e hd).1 e = omInsert (abs k f e) (keyOf n) (payloadOf n.value) ∧
+        absNodes k (f.appendEntryNode k e hd).1 e = absNodes k f e ++ [hd] ∧
+        abs k (f.appendEntryNode k e hd).1 e2 = omRemove (abs k f e2) (keyOf n) ∧
+        (∀ k', k' ≠ k → abs k' (f.appendEntryNode k e hd).1 e = abs k' f e ∧
+          abs k' (f.appendEntryNode k e hd).1 e2 = abs k' f e2) ∧
+        (f.appendEntryNode k e hd).1.Inv) := by
+  obtain ⟨nm, N, A, S, h⟩ := minv_of_inv f e hi he
+  obtain ⟨nm2, N2, A2, S2, h2⟩ := minv_of_inv f e2 hi he2
+  have hm' := hm
+  rw [h2.absNodes_eq k] at hm'
+  obtain ⟨n, hn, hh⟩ := List.mem_map.mp hm'
+  obtain ⟨hg2, s1, s2, hs, _⟩ := getNode_of_mem h2 k n hn
+  refine ⟨n, hg2, hh, ?_⟩
+  intro habs
+  subst hh
+  have hncat : n.value.category = kindCat k := h2.sect.sec_cat k n hn
+  have hmv : k.matches n.value = true := (matches_iff_cat k _).mpr hncat
+  -- the node as a leaf child of `e2`
+  have hloc2 : Located f e2 (.element nm2) ((preK k N2 ++ s1) ++ n :: (s2 ++ postK k A2 S2)) := by
+    rw [← kids_around k N2 A2 S2 s1 s2 n hs]; exact h2.loc
+  have a : Attached f e2 (.element nm2) (preK k N2 ++ s1) (s2 ++ postK k A2 S2) n :=
+    ⟨hloc2, h2.leaf k n hn⟩
+  have hdet := detach_child hloc2 (by rw [hncat]; exact kindCat_ne_normal k)
+  have hfd : (f.detach n.handle).1 = a.fd := by rw [hdet]; rfl
+  have hen : n.handle ≠ e := by
+    intro hx
+    have hgn : f.get? n.handle = some n := hloc2.childFound n (by simp)
+    rw [hx, h.loc.get] at hgn
+    simp only [Option.some.injEq] at hgn
+    rw [← hgn] at hmv
+    cases k <;> simp [MapKind.matches, HTree.value] at hmv
+  have hne2 : n.handle ≠ e2 := by
+    intro hx
+    apply hloc2.kidsNodup.2
+    rw [← hx, handlesList_append]
+    simp only [handlesList, List.mem_append]
+    exact Or.inr (Or.inl (handle_mem_handles n))
+  -- the call is the call on the detached forest
+  rw [appendEntryNode_attached_eq h a hne k hmv habs]
+  have hifd : a.fd.Inv := by
+    have := detach_node_inv f hi k e2 n.handle he2 hm
+    rwa [hfd] at this
+  have hsh : (a.fd.get? e).map shallow = (f.get? e).map shallow := a.shallow_eq e hne hen
+  obtain ⟨hva, hvn, hvel, _⟩ := views_of_shallow f a.fd e hsh
+  have hefd : a.fd.isElement e = true := by rw [hvel]; exact he
+  obtain ⟨nm', N', A', S', h'⟩ := minv_of_inv a.fd e hifd hefd
+  have habsfd : a.fd.mapGetNode k e (entryKey n.value) = none := by
+    have c1 := containsKey_eq f k e (entryKey n.value)
+    have c2 := containsKey_eq a.fd k e (entryKey n.value)
+    have habs0 : f.mapGetNode k e (entryKey n.value) = none := habs
+    rw [hva k, ← c1, habs0] at c2
+    cases hx : a.fd.mapGetNode k e (entryKey n.value) with
+    | none => rfl
+    | some _ => rw [hx] at c2; cases c2
+  obtain ⟨hcall, hinv'', hmap, hnodes⟩ :=
+    appendEntryNode_absent h' k n.handle n.value hmv a.root_mem habsfd
+  have hinvF : (a.fd.appendEntryNode k e n.handle).1.Inv := by
+    apply appendEntryNode_inv a.fd hifd k e n.handle n.value hefd
+    · unfold Forest.isRoot
+      exact List.any_eq_true.mpr ⟨_, a.root_mem, by simp [HTree.handle]⟩
+    · have := leafRoot_get a.fd a.fd_nodup n.handle n.value a.root_mem
+      simp [Forest.value?, this, HTree.value]
+    · exact hmv
+  rw [hcall] at hinvF ⊢
+  simp only at hinvF ⊢
+  -- the detached forest seen from `e2`
+  obtain ⟨s2', st2, _, hmap2, _⟩ := detach_node_step h2 k n hn
+  rw [hfd] at st2
+  -- the final forest seen from `e2`: only `e`'s child list differs, by the leaf `n`
+  have hW : rootsWithout a.fd n.handle =
+      withKids f.roots e2 ((preK k N2 ++ s1) ++ (s2 ++ postK k A2 S2)) :=
+    rootsWithout_detached f e2 _ n a.fresh
+  have h0 := located_without h'.loc n.handle n.value a.root_mem (fun hx => hen hx.symm)
+  have hH : (findList? e2 (preK k N' ++ (Sect.sec k N' A' ++ [.node n.handle n.value []]) ++
+        postK k A' S')).map shallow = (findList? e2 (N' ++ A' ++ S')).map shallow := by
+    have e1 : preK k N' ++ (Sect.sec k N' A' ++ [.node n.handle n.value []]) ++ postK k A' S' =
+        (preK k N' ++ Sect.sec k N' A') ++ .node n.handle n.value [] :: postK k A' S' := by simp
+    rw [e1, findList?_skip_leaf e2 _ _ (.node n.handle n.value []) rfl hne2, ← split_kids k N' A' S']
+  have hG := shallow_findList?_withKids e e2 (.element nm') _ _ (fun hx => hne hx.symm) hH
+    (rootsWithout a.fd n.handle) h0.nodup h0.get
+  -- lookups of `e2`: final forest = roots without the leaf = detached forest
+  have hfd2 : a.fd.get? e2 = findList? e2 (rootsWithout a.fd n.handle) := by
+    rw [hW]
+    have hW2 : findList? e2 (withKids f.roots e2 ((preK k N2 ++ s1) ++ (s2 ++ postK k A2 S2))) = _ :=
+      (located_after_cut hloc2).get
+    show findList? e2 (withKids f.roots e2 _ ++ [n]) = _
+    rw [findList?_append_left e2 _ _ _ hW2, hW2]
+  let ksF := preK k N' ++ (Sect.sec k N' A' ++ [HTree.node n.handle n.value []]) ++ postK k A' S'
+  let fF : Forest := { a.fd with roots := withKids (rootsWithout a.fd n.handle) e ksF }
+  have hsh2 : (fF.get? e2).map shallow = (a.fd.get? e2).map shallow := by
+    rw [hfd2]; exact hG
+  obtain ⟨hva2, _, _, _⟩ := views_of_shallow a.fd fF e2 hsh2
+  refine ⟨by first | rfl | trivial, ?_, ?_, ?_, ?_, hinvF⟩
+  · rw [MInv.abs_update hinv'', hmap, ← h'.abs_eq k, hva k]; rfl
+  · rw [hinv''.absNodes_eq k, sec_setSec, hnodes, ← h'.absNodes_eq k, hvn k]
+  · rw [hva2 k, st2.abs_same, hmap2, h2.abs_eq k]
+  · intro k' hk'
+    constructor
+    · rw [MInv.abs_update_other h' hinv'' hk', hva k']
+    · rw [hva2 k', st2.abs_other h2 hk']
+
+end Fmap
+end XotModel
